@@ -237,6 +237,44 @@ func c20R1(r *Report) {
 				return false
 			case *ssa.Alloc:
 				return at != nil && equalOn(x, at, from)
+			case *ssa.Call:
+				// file := lookupFile(t, pth): every non-nil result of the helper is &t.Files[i] for an i whose path
+				// it found equal to the request it was handed
+				h := x.Call.StaticCallee()
+				if h == nil || h.Blocks == nil || x.Call.IsInvoke() || relPkg(h) != relPkg(fp) {
+					return false
+				}
+				var pprm ssa.Value
+				for k, a := range x.Call.Args {
+					if a == ssa.Value(pth) && k < len(h.Params) {
+						pprm = h.Params[k]
+					}
+				}
+				if pprm == nil {
+					return false
+				}
+				some := false
+				for _, ret := range returnsOf(h) {
+					res := retResults(ret)
+					if len(res) != 1 {
+						return false
+					}
+					if isNilConst(res[0]) {
+						continue
+					}
+					ia, isIA := res[0].(*ssa.IndexAddr)
+					if !isIA {
+						return false
+					}
+					if f2, _ := loadedField(ia.X); f2 != filesF {
+						return false
+					}
+					if !equalOnIndex(ia.Index, guardsOf(ret.Block()), pprm) {
+						return false
+					}
+					some = true
+				}
+				return some
 			case *ssa.Phi:
 				for i, e := range x.Edges {
 					if e == ssa.Value(x) {
